@@ -232,8 +232,8 @@ impl Property for C20 {
         "part (ii) uses the real clock inside Server::handle: cutoff 0 (never limits) or 1 h (two requests of one case are always closer than that)",
         "the plain address and its IPv4-mapped form are treated as different clients by the limiter (not part of the statement; never used together in part (i))",
     ];
-    const QUICK_CASES: u32 = 400_000;
-    const THOROUGH_CASES: u32 = 16_000_000;
+    const QUICK_CASES: u32 = 2_000_000;
+    const THOROUGH_CASES: u32 = 30_000_000;
 
     fn strategy(_tier: Tier) -> BoxedStrategy<Case> {
         prop_oneof![
